@@ -86,12 +86,12 @@ func upper(s string) string {
 	return string(b)
 }
 
-func isWS(c byte) bool        { return c == ' ' || (c >= 0x09 && c <= 0x0d) }
-func isDigit(c byte) bool     { return c >= '0' && c <= '9' }
-func isHex(c byte) bool       { return isDigit(c) || (c >= 'a' && c <= 'f') || (c >= 'A' && c <= 'F') }
-func isOct(c byte) bool       { return c >= '0' && c <= '7' }
-func isIdStart(c byte) bool   { return c == '_' || (c >= 'a' && c <= 'z') || (c >= 'A' && c <= 'Z') }
-func isIdPart(c byte) bool    { return isIdStart(c) || isDigit(c) }
+func isWS(c byte) bool          { return c == ' ' || (c >= 0x09 && c <= 0x0d) }
+func isDigit(c byte) bool       { return c >= '0' && c <= '9' }
+func isHex(c byte) bool         { return isDigit(c) || (c >= 'a' && c <= 'f') || (c >= 'A' && c <= 'F') }
+func isOct(c byte) bool         { return c >= '0' && c <= '7' }
+func isIdStart(c byte) bool     { return c == '_' || (c >= 'a' && c <= 'z') || (c >= 'A' && c <= 'Z') }
+func isIdPart(c byte) bool      { return isIdStart(c) || isDigit(c) }
 func dotEligible(k string) bool { return k == KIdent || k == KParam || k == ")" || k == "]" }
 
 var puncts = []string{
